@@ -821,6 +821,9 @@ func (k *kernel) sleep(d time.Duration, done <-chan struct{}) bool {
 // runBubble is the dispatcher; it must be called from the root goroutine of a
 // synctest bubble. body runs the ops of one task.
 func (k *kernel) runBubble(body func(t *task)) {
+	if d := k.p.Schedule.StartOffsetNs; d > 0 {
+		time.Sleep(time.Duration(d)) // the moment of the calls: the simulated clock jumps before the first one
+	}
 	k.simStart = time.Now()
 	// channels must be created inside the bubble to block durably
 	k.wake = make(chan struct{}, 1024)
